@@ -107,6 +107,20 @@ Proof.
   - destruct (existsb _ _); inversion H; subst; exact F.
 Qed.
 
+(* the PD overlap check changes the answer of a reservation walk, never the state *)
+Lemma reserve_walk_inv v st f x s obs st' r :
+  reserve_walk v st f x s obs = Some (st', r) ->
+  exists r0, walk v st f x obs (mk_reserve v x s) = Some (st', r0) /\
+             (r = r0 \/ (r = ROOverlap /\ r0 = ROOk /\ f = FPD /\ obs = None /\ pd_overlap v st x = true)).
+Proof.
+  unfold reserve_walk. intros H.
+  destruct (walk v st f x obs (mk_reserve v x s)) as [[st1 r1]|]; [|discriminate].
+  destruct r1; try (inversion H; subst; eexists; split; [reflexivity | left; reflexivity]).
+  destruct f; try (inversion H; subst; eexists; split; [reflexivity | left; reflexivity]).
+  destruct obs; try (inversion H; subst; eexists; split; [reflexivity | left; reflexivity]).
+  destruct (pd_overlap v st x) eqn:E; inversion H; subst; eexists; split; try reflexivity; [right | left]; auto.
+Qed.
+
 Lemma some_pair_inj {A B} (a a' : A) (b b' : B) : Some (a, b) = Some (a', b') -> a = a' /\ b = b'.
 Proof. intros H; inversion H; auto. Qed.
 
@@ -147,8 +161,8 @@ Proof.
   - destruct (assoc_find key_eqb k (r_allocs st f)).
     + destruct (on_pool Repaired st f k (mk_reserve Repaired x s)) as [[st1 o1]|] eqn:E; [|discriminate].
       inversion H; subst. eapply rinv_on_pool; eauto.
-    + eapply rinv_walk; eauto.
-  - eapply rinv_walk; eauto.
+    + destruct (reserve_walk_inv _ _ _ _ _ _ _ _ H) as [r0 [W _]]. eapply rinv_walk; eauto.
+  - destruct (reserve_walk_inv _ _ _ _ _ _ _ _ H) as [r0 [W _]]. eapply rinv_walk; eauto.
   - destruct (assoc_find key_eqb k (r_allocs st f)).
     + destruct (on_pool Repaired st f k (mk_release Repaired x)) as [[st1 o1]|] eqn:E; [|discriminate].
       inversion H; subst. eapply rinv_on_pool; eauto.
@@ -410,7 +424,7 @@ Proof.
   - destruct (reg_step Repaired st (RReserve F4 (RA (Some a)) s wobs)) as [[st1 o]|] eqn:E; [|discriminate].
     destruct o; inversion H; subst; eapply rinv_step; eauto.
   - destruct (reg_step Repaired st (RAlloc F4 pf ov vrf s obs)) as [[st1 o]|] eqn:E; [|discriminate].
-    destruct o as [k g| | | | | |]; try discriminate.
+    destruct o as [k g| | | | | | |]; try discriminate.
     + destruct g; inversion H; subst. eapply rinv_step; eauto.
     + inversion H; subst. eapply rinv_step; eauto.
 Qed.
@@ -427,7 +441,7 @@ Proof.
   - destruct (reg_step Repaired st (RReserve F4 (RA (Some b)) s wobs)) as [[st1 o]|] eqn:E; [|discriminate].
     destruct o; inversion H; subst. left. auto.
   - destruct (reg_step Repaired st (RAlloc F4 pf ov vrf s obs)) as [[st1 o]|] eqn:E; [|discriminate].
-    destruct o as [k g| | | | | |]; try discriminate.
+    destruct o as [k g| | | | | | |]; try discriminate.
     destruct g; inversion H; subst. right. split; [reflexivity|]. eauto.
 Qed.
 
@@ -441,7 +455,7 @@ Proof.
     - destruct (reg_step Repaired st (RReserve FNA (RA (Some a)) s wna)) as [[sx o]|] eqn:E1; [|discriminate].
       destruct o; inversion E; subst; eapply rinv_step; eauto.
     - destruct (reg_step Repaired st (RAlloc FNA pf naov vrf s ona)) as [[sx o]|] eqn:E1; [|discriminate].
-      destruct o as [k g| | | | | |]; try discriminate.
+      destruct o as [k g| | | | | | |]; try discriminate.
       + destruct g; inversion E; subst. eapply rinv_step; eauto.
       + inversion E; subst. eapply rinv_step; eauto. }
   destruct r1 as [[[[st1 b] na] np]|]; [|discriminate].
@@ -452,7 +466,7 @@ Proof.
     - destruct (reg_step Repaired st1 (RReserve FPD (RP p) s wpd)) as [[sx o]|] eqn:E1; [|discriminate].
       destruct o; inversion E; subst; eapply rinv_step; eauto.
     - destruct (reg_step Repaired st1 (RAlloc FPD pf pdov vrf s opd)) as [[sx o]|] eqn:E1; [|discriminate].
-      destruct o as [k g| | | | | |]; try discriminate; inversion E; subst; eapply rinv_step; eauto. }
+      destruct o as [k g| | | | | | |]; try discriminate; inversion E; subst; eapply rinv_step; eauto. }
   destruct r2 as [[[[st2 b] pd] pp]|]; [|discriminate].
   inversion H; subst. eapply F2; reflexivity.
 Qed.
@@ -546,8 +560,8 @@ Proof.
   - cbn [reg_step] in H. destruct (assoc_find key_eqb k (r_allocs st f)).
     + destruct (on_pool v st f k (mk_reserve v x s)) as [[st1 o1]|] eqn:E; [|discriminate].
       inversion H; subst. eapply lists_on_pool; eauto.
-    + eapply lists_walk; eauto.
-  - cbn [reg_step] in H. eapply lists_walk; eauto.
+    + destruct (reserve_walk_inv _ _ _ _ _ _ _ _ H) as [r0 [W _]]. eapply lists_walk; eauto.
+  - cbn [reg_step] in H. destruct (reserve_walk_inv _ _ _ _ _ _ _ _ H) as [r0 [W _]]. eapply lists_walk; eauto.
   - cbn [reg_step] in H. destruct (assoc_find key_eqb k (r_allocs st f)).
     + destruct (on_pool v st f k (mk_release v x)) as [[st1 o1]|] eqn:E; [|discriminate].
       inversion H; subst. eapply lists_on_pool; eauto.
@@ -767,8 +781,8 @@ Proof.
   - cbn [reg_step] in H. destruct (assoc_find key_eqb k (r_allocs st f)).
     + destruct (on_pool v st f k (mk_reserve v x s)) as [[st1 o1]|] eqn:E; [|discriminate].
       inversion H; subst. eapply OP; eauto.
-    + eapply WK; eauto.
-  - cbn [reg_step] in H. eapply WK; eauto.
+    + destruct (reserve_walk_inv _ _ _ _ _ _ _ _ H) as [r0 [W _]]. eapply WK; eauto.
+  - cbn [reg_step] in H. destruct (reserve_walk_inv _ _ _ _ _ _ _ _ H) as [r0 [W _]]. eapply WK; eauto.
   - cbn [reg_step] in H. destruct (assoc_find key_eqb k (r_allocs st f)).
     + destruct (on_pool v st f k (mk_release v x)) as [[st1 o1]|] eqn:E; [|discriminate].
       inversion H; subst. eapply OP; eauto.
@@ -818,7 +832,9 @@ Proof.
   - (* reservation of the address the context carries *)
     destruct (reg_step v st (RReserve F4 (RA (Some b)) s wobs)) as [[st1 o]|] eqn:E; [|discriminate].
     destruct o; inversion H; subst; clear H.
-    cbn [reg_step] in E. unfold walk in E. destruct wobs as [k|].
+    cbn [reg_step] in E.
+    destruct (reserve_walk_inv _ _ _ _ _ _ _ _ E) as [r0 [W [<-|[X _]]]]; [|discriminate X]. clear E. rename W into E.
+    unfold walk in E. destruct wobs as [k|].
     + destruct (assoc_find key_eqb k (r_allocs st F4)) as [[ac ps]|] eqn:A; [|discriminate].
       destruct (acontains v ac (RA (Some a))) eqn:C; [|discriminate].
       destruct (on_pool v st F4 k (mk_reserve v (RA (Some a)) s)) as [[st2 o2]|] eqn:OP; [|discriminate].
@@ -837,7 +853,7 @@ Proof.
         by (apply existsb_exists; exists e; auto). congruence.
   - (* allocation *)
     destruct (reg_step v st (RAlloc F4 pf ov vrf s obs)) as [[st1 o]|] eqn:E; [|discriminate].
-    destruct o as [k g| | | | | |]; try discriminate. destruct g as [a0|]; [|discriminate].
+    destruct o as [k g| | | | | | |]; try discriminate. destruct g as [a0|]; [|discriminate].
     inversion H; subst; clear H.
     cbn [reg_step] in E.
     destruct (alloc_target v st F4 pf ov vrf) as [t|]; destruct obs as [[k' o']|]; try discriminate.
@@ -917,7 +933,9 @@ Lemma reserve_staked v st f x s w st' :
    (st' = st /\ forall e, In e (r_allocs st f) -> acontains v (fst (snd e)) x = false)) /\
   (forall g, f <> g -> r_allocs st' g = r_allocs st g).
 Proof.
-  intros H. cbn [reg_step] in H. unfold walk in H. destruct w as [k|].
+  intros H. cbn [reg_step] in H.
+  destruct (reserve_walk_inv _ _ _ _ _ _ _ _ H) as [r0 [W [<-|[X _]]]]; [|discriminate X]. clear H. rename W into H.
+  unfold walk in H. destruct w as [k|].
   - destruct (assoc_find key_eqb k (r_allocs st f)) as [[ac ps]|] eqn:A; [|discriminate].
     destruct (acontains v ac x) eqn:C; [|discriminate].
     destruct (on_pool v st f k (mk_reserve v x s)) as [[st2 o2]|] eqn:OP; [|discriminate].
@@ -934,6 +952,18 @@ Proof.
     destruct (acontains v (fst (snd e)) x) eqn:C; [|reflexivity].
     assert (existsb (fun e0 => acontains v (fst (snd e0)) x) (r_allocs st' f) = true)
       by (apply existsb_exists; exists e; auto). congruence.
+Qed.
+
+Lemma reserve_frame v st f x s w st' r g :
+  reg_step v st (RReserve f x s w) = Some (st', r) -> f <> g -> r_allocs st' g = r_allocs st g.
+Proof.
+  intros H N. cbn [reg_step] in H. destruct (reserve_walk_inv _ _ _ _ _ _ _ _ H) as [r0 [W _]].
+  unfold walk in W. destruct w as [k|].
+  - destruct (assoc_find key_eqb k (r_allocs st f)) as [[ac ps]|]; [|discriminate].
+    destruct (acontains v ac x); [|discriminate].
+    destruct (on_pool v st f k (mk_reserve v x s)) as [[s2 o2]|] eqn:OP; [|discriminate].
+    inversion W; subst. eapply on_pool_frame; eauto.
+  - destruct (existsb _ _); inversion W; subst; reflexivity.
 Qed.
 
 (* ResolveV6: whatever address or prefix the context carries after a call that did not return nil is
@@ -974,15 +1004,9 @@ Proof.
       + destruct (reserve_staked _ _ _ _ _ _ _ E1) as [S F]. split; [apply F; discriminate|].
         intros _ a Ha. inversion Ha; subst a. split; [reflexivity|].
         destruct S as [[k [ac [ps' [a' [A [K L]]]]]]|[-> U]]; [left; exists k, ac, ps', a'; auto | right; auto].
-      + split; [|discriminate].
-        cbn [reg_step] in E1. unfold walk in E1. destruct wna as [k|].
-        * destruct (assoc_find key_eqb k (r_allocs st FNA)) as [[ac ps]|]; [|discriminate].
-          destruct (acontains v ac (RA (Some a0))); [|discriminate].
-          destruct (on_pool v st FNA k (mk_reserve v (RA (Some a0)) s)) as [[s2 o2]|] eqn:OP; [|discriminate].
-          inversion E1; subst. eapply on_pool_frame; eauto. discriminate.
-        * destruct (existsb _ _); inversion E1; subst; reflexivity.
+      + split; [eapply reserve_frame; eauto; discriminate | discriminate].
     - destruct (reg_step v st (RAlloc FNA pf naov vrf s ona)) as [[sx o]|] eqn:E1; [|discriminate].
-      destruct o as [k g| | | | | |]; try discriminate.
+      destruct o as [k g| | | | | | |]; try discriminate.
       + destruct g as [a1|]; [|discriminate]. inversion E; subst; clear E.
         destruct (alloc_staked _ _ _ _ _ _ _ _ _ _ _ E1) as [S F]. split; [apply F; discriminate|].
         intros _ a Ha. inversion Ha; subst a. destruct S as [ac [ps' [a' [A [K L]]]]]. exists k, ac, ps', a'. auto.
@@ -1008,15 +1032,10 @@ Proof.
       + destruct (reserve_staked _ _ _ _ _ _ _ E1) as [S F]. split; [apply F; discriminate|].
         intros _. split; [intros o Ho; discriminate|]. intros p Hp. inversion Hp; subst p.
         destruct S as [[k [ac [ps' [a' [A [K L]]]]]]|[-> U]]; [left; exists k, ac, ps', a'; auto | right; auto].
-      + split; [|discriminate].
-        cbn [reg_step] in E1. unfold walk in E1. destruct wpd as [k|].
-        * destruct (assoc_find key_eqb k (r_allocs st1 FPD)) as [[ac ps]|]; [|discriminate].
-          destruct (acontains v ac (RP p0)); [|discriminate].
-          destruct (on_pool v st1 FPD k (mk_reserve v (RP p0) s)) as [[s2 o2]|] eqn:OP; [|discriminate].
-          inversion E1; subst. eapply on_pool_frame; eauto. discriminate.
-        * destruct (existsb _ _); inversion E1; subst; reflexivity.
+      + split; [eapply reserve_frame; eauto; discriminate | discriminate].
+      + split; [eapply reserve_frame; eauto; discriminate | discriminate].
     - destruct (reg_step v st1 (RAlloc FPD pf pdov vrf s opd)) as [[sx o]|] eqn:E1; [|discriminate].
-      destruct o as [k g| | | | | |]; try discriminate.
+      destruct o as [k g| | | | | | |]; try discriminate.
       + inversion E; subst; clear E.
         destruct (alloc_staked _ _ _ _ _ _ _ _ _ _ _ E1) as [S F]. split; [apply F; discriminate|].
         intros _. split; [|intros p Hp; discriminate].
@@ -1039,4 +1058,33 @@ Proof.
   - exact PD1.
   - intros p Hp. destruct (PD2 p Hp) as [S|U]; [left; exact S | right].
     intros e He. apply U. rewrite FR. exact He.
+Qed.
+
+(* ---------------------------------------------------------------- ReservePD: overlap refusal (23daa44) *)
+Lemma overlaps_spec v c ip ones bits :
+  overlaps v c (Pfx ip ones bits) = true ->
+  prefix_to_index v c (Pfx ip ones bits) = None /\ bits = 128 /\
+  exists A, norm ip = Some (V6, A) /\
+            A / 2 ^ (128 - N.min (pd_nbits c) ones) = pd_base c / 2 ^ (128 - N.min (pd_nbits c) ones).
+Proof.
+  unfold overlaps. destruct (prefix_to_index v c (Pfx ip ones bits)); [discriminate|].
+  destruct (N.eqb_spec bits 128) as [->|]; [|discriminate]. cbn [negb].
+  destruct (norm ip) as [[[|] A]|]; try discriminate.
+  intros H. apply N.eqb_eq in H. split; [reflexivity|]. split; [reflexivity|]. exists A. auto.
+Qed.
+
+(* a ReservePD walk that finds no pool containing the prefix changes nothing; it is refused exactly when
+   some PD pool overlaps the prefix, and accepted (unmanaged prefix) otherwise *)
+Lemma reserve_pd_no_pool v st p s st' r :
+  reg_step v st (RReserve FPD (RP p) s None) = Some (st', r) ->
+  st' = st /\ (forall e, In e (r_allocs st FPD) -> acontains v (fst (snd e)) (RP p) = false) /\
+  ((pd_overlap v st (RP p) = true /\ r = ROOverlap) \/ (pd_overlap v st (RP p) = false /\ r = ROOk)).
+Proof.
+  intros H. cbn [reg_step] in H. unfold reserve_walk, walk in H.
+  destruct (existsb (fun e => acontains v (fst (snd e)) (RP p)) (r_allocs st FPD)) eqn:X; [discriminate|].
+  split; [destruct (pd_overlap v st (RP p)); inversion H; reflexivity|]. split.
+  - intros e He. destruct (acontains v (fst (snd e)) (RP p)) eqn:C; [|reflexivity].
+    assert (existsb (fun e0 => acontains v (fst (snd e0)) (RP p)) (r_allocs st FPD) = true)
+      by (apply existsb_exists; exists e; auto). congruence.
+  - destruct (pd_overlap v st (RP p)); inversion H; [left | right]; auto.
 Qed.
